@@ -36,6 +36,8 @@ def tla_value(v):
         return "{" + ", ".join(sorted(tla_value(x) for x in v)) + "}"
     if isinstance(v, (list, tuple)):
         return "<<" + ", ".join(tla_value(x) for x in v) + ">>"
+    if isinstance(v, dict):
+        return "[" + ", ".join("%s |-> %s" % (k, tla_value(x)) for k, x in v.items()) + "]"
     raise ToolingError("cannot render constant %r" % (v,))
 
 
